@@ -5,21 +5,21 @@ _ANCH = ["src/hgraph/runtime/map_node.cpp", "include/hgraph/runtime/map_node.h",
 _SRC = "harness/C10_map.cpp"
 _FUNCS = ("mapped function enumerated from {x+1 (stateless), running sum (State), key-consuming key*1000+x (leading key parameter), self-scheduling "
           "(re-emits one cycle after every tick from its own NodeScheduler), x+b with a broadcast argument b that ticks in enumerated cycles, "
-          "late (silent on its first tick: live key without valid output)}; every element / broadcast value an unconstrained symbolic int64; "
+          "late (silent on its first tick: live key without valid output), sampler (PASSIVE element input, timer armed in the node's start hook: the child is not due in the cycle its key appears, samples one and two cycles later)}; every element / broadcast value an unconstrained symbolic int64; "
           "checked after every engine cycle plus one trailing cycle for pending wake-ups")
 _OUT = ("map_ call-shape normalisation in front of wire_map (operator front door: keyword binding, __keys__ inference by union); several multiplexed "
         "dictionaries / explicit __keys__ (the union operator is not linkable); nested map inside map; mesh_; tsl_map_node (wire_map_tsl); REF-shaped "
         "child outputs; children that throw (C15) ; error-capturing map (map_node_with_error_capture); re-pointed (REF) sources; pause/resume")
 # configuration tuples {NKEYS, BULK, NCYC, EXTRA_OPS, FMASK}; one binary, configuration and mapped function enumerated first.
-# FMASK: bit set of mapped functions (1 inc, 2 running sum, 4 key-consuming, 8 self-scheduling, 16 broadcast arg, 32 late)
-_QUICK = "{3,0,3,0,10},{2,0,3,0,63},{1,4,3,0,63},{2,0,3,1,35}"
-_THOROUGH = "{3,0,3,0,63},{4,0,3,0,10},{2,7,3,0,63},{2,0,3,1,63},{2,0,4,1,35}"
+# FMASK: bit set of mapped functions (1 inc, 2 running sum, 4 key-consuming, 8 self-scheduling, 16 broadcast arg, 32 late, 64 sampler)
+_QUICK = "{3,0,3,0,10},{2,0,3,0,127},{1,4,3,0,127},{2,0,3,1,99}"
+_THOROUGH = "{3,0,3,0,127},{4,0,3,0,74},{2,7,3,0,127},{2,0,3,1,127},{2,0,4,1,99}"
 reg("C10",
     name="C10_map", src=_SRC, anchor_files=_ANCH,
     quick=dict(defs=dict(CONFIGS=_QUICK), symx=dict(shards=16, **{"max-wall": 900, "query-timeout-ms": 120000})),
     thorough=dict(defs=dict(CONFIGS=_THOROUGH), symx=dict(shards=16, **{"max-wall": 3000, "shard-depth": 8, "query-timeout-ms": 120000})),
     reach=["end", "key_removed", "key_removed_and_readded_same_cycle", "key_with_state_removed_and_added_later", "key_added_after_a_removal", "three_valid",
-           "five_valid", "self_scheduled_wakeup", "removed_with_pending_wakeup", "broadcast_tick_alone", "live_key_without_valid_output", "phantom_key", "late_valid_key_after_map_primed"],
+           "five_valid", "self_scheduled_wakeup", "removed_with_pending_wakeup", "broadcast_tick_alone", "live_key_without_valid_output", "phantom_key", "late_valid_key_after_map_primed", "child_timer_armed_in_start_not_due_at_creation"],
     bounds="TSD<int,TS<int>> source; enumerated configurations {NKEYS, BULK, NCYC, EXTRA_OPS, FMASK = bit set of the mapped functions explored}: quick " + _QUICK + "; thorough " + _THOROUGH + ": in each of "
            "NCYC cycles every one of NKEYS keys independently does {nothing, set (add/update), remove, erase+set in one cycle}, with EXTRA_OPS also {create "
            "the key without a value, add+remove in one cycle}; a group of BULK further keys is added/updated/removed as a unit (many keys per cycle, "
